@@ -113,9 +113,10 @@ def build(stack, seed_override="keep"):
     clob = {int(k): tuple(v) for k, v in (r.get("clobber") or {}).items()}
     if r["kind"] == "torchwrap":
         from kappadata.wrappers import TorchWrapper
-        ds = TorchWrapper(PlainTorchDataset(r["n"]), mode="x class")
+        ds = TorchWrapper(PlainTorchDataset(r["n"], fail_at=r.get("fail_at") or ()), mode="x class")
     else:
-        ds = RootDataset(r["kind"], r["n"], clobber=clob, ctx_tags=bool(r.get("ctx_tags")), ds_id=r.get("ds_id", 0))
+        ds = RootDataset(r["kind"], r["n"], clobber=clob, ctx_tags=bool(r.get("ctx_tags")), ds_id=r.get("ds_id", 0),
+                         fail_at=r.get("fail_at") or ())
     for layer in stack.get("below", []):
         ds = apply_layer(ds, layer)
     if stack.get("seeded"):
